@@ -173,6 +173,27 @@ fn run(ctx: &Ctx) {
         }
         (v, if want_case { json!({"bytes": isa::hex(&prog), "listing": isa::listing(&prog, 30)}) } else { Value::Null })
     });
+    // the same near-valid programs embedded in long ones (up to 140,000 instructions), mutations
+    // applied anywhere: position-dependent rules deep inside a long program, far from both ends
+    let cases = ctx.share(ctx.tier.pick(24_000, 480_000));
+    ctx.shrink_iters.set(300);
+    ctx.search("soup-long", "rle", cases, soup::soup_embedded(24), |s, want_case| {
+        let prog = soup::lower(s);
+        let v = check_bytes(&prog);
+        if !want_case {
+            account(ctx, &prog, &format!("soup-long:{}-mutations", s.muts.len()));
+            let n = prog.len() / 8;
+            let mut st = ctx.stats();
+            st.class(match n {
+                0..=1000 => "soup-long:<=1000-insns",
+                1001..=32768 => "soup-long:1001-32768-insns",
+                32769..=65536 => "soup-long:32769-65536-insns",
+                _ => "soup-long:>65536-insns",
+            });
+        }
+        (v, if want_case { json!({"rle": rle(&prog), "listing": isa::listing(&prog, 8)}) } else { Value::Null })
+    });
+    ctx.shrink_iters.set(60_000);
     let cases = ctx.share(ctx.tier.pick(400_000, 8_000_000));
     ctx.search("random", "bytes", cases, prop::collection::vec(any::<u8>(), 0..40), |prog, want_case| {
         let v = check_bytes(prog);
@@ -183,7 +204,35 @@ fn run(ctx: &Ctx) {
     });
 }
 
+/// Run-length encoding over 8-byte slots: [[count, hex slot], ...] plus the trailing bytes.
+fn rle(bytes: &[u8]) -> Value {
+    let mut runs: Vec<(u64, &[u8])> = Vec::new();
+    let mut chunks = bytes.chunks_exact(8);
+    for c in &mut chunks {
+        match runs.last_mut() {
+            Some((n, s)) if *s == c => *n += 1,
+            _ => runs.push((1, c)),
+        }
+    }
+    json!({"runs": runs.iter().map(|(n, s)| json!([n, isa::hex(s)])).collect::<Vec<_>>(), "tail": isa::hex(chunks.remainder())})
+}
+
+fn unrle(v: &Value) -> Vec<u8> {
+    let mut out = Vec::new();
+    for r in v["runs"].as_array().map(|a| a.as_slice()).unwrap_or(&[]) {
+        let slot = isa::unhex(r[1].as_str().unwrap_or(""));
+        for _ in 0..r[0].as_u64().unwrap_or(0) {
+            out.extend_from_slice(&slot);
+        }
+    }
+    out.extend_from_slice(&isa::unhex(v["tail"].as_str().unwrap_or("")));
+    out
+}
+
 fn replay(_ctx: &Ctx, _kind: &str, case: &Value) -> Verdict {
+    if case.get("rle").is_some() {
+        return check_bytes(&unrle(&case["rle"]));
+    }
     if let Some(n) = case["mov_exit_len"].as_u64() {
         let exit = isa::Insn::new(isa::EXIT, 0, 0, 0, 0).encode();
         let mov = isa::Insn::new(0xb7, 0, 0, 0, 1).encode();
